@@ -26,7 +26,18 @@ type vFieldKind struct {
 	decl  string  // field declaration inside the struct
 	aux   string  // extra top-level declarations
 	wants []vWant // members this field contributes (embedded structs contribute several)
+	imp   string  // standard-library package the field needs (a minimal in-memory stand-in is provided)
 }
+
+// minimal stand-ins for the two standard-library types the scanner knows by name
+const vMiniTime = `package time
+
+// A Time represents an instant in time
+type Time struct{ wall uint64 }
+
+// MarshalText implements encoding.TextMarshaler
+func (t Time) MarshalText() ([]byte, error) { return nil, nil }
+`
 
 func vw(name, typ, format string) vWant { return vWant{name: name, typ: typ, format: format} }
 
@@ -50,6 +61,10 @@ var vFieldKinds = []vFieldKind{
 	{decl: "N Num `json:\"n\"`", aux: "type Num uint64\n", wants: []vWant{vw("n", "integer", "uint64")}},
 	// a tag spelled as an interpreted string literal
 	{decl: "Dq float64 \"json:\\\"dq,omitempty\\\"\"", wants: []vWant{vw("dq", "number", "double")}},
+	// a named string carrying a swagger:strfmt annotation; the instant type of package time
+	{decl: "Ul ULID `json:\"ul\"`", aux: "// ULID is an identifier\n//\n// swagger:strfmt ulid\ntype ULID string\n", wants: []vWant{vw("ul", "string", "ulid")}},
+	{decl: "When time.Time `json:\"when\"`", imp: "time", wants: []vWant{vw("when", "string", "date-time")}},
+	{decl: "Whens []*time.Time `json:\"whens\"`", imp: "time", wants: []vWant{{name: "whens", typ: "array", items: &vWant{typ: "string", format: "date-time"}}}},
 	// text marshalers: value receiver, pointer receiver behind a pointer field and as slice element
 	{decl: "At Stamp `json:\"at\"`", aux: "type Stamp struct{ Sec int }\n\nfunc (s Stamp) MarshalText() ([]byte, error) { return nil, nil }\n", wants: []vWant{vw("at", "string", "")}},
 	{decl: "From *Offset `json:\"from\"`", aux: "type Offset struct{ Sec int }\n\nfunc (o *Offset) MarshalText() ([]byte, error) { return nil, nil }\n", wants: []vWant{vw("from", "string", "")}},
@@ -133,19 +148,30 @@ func VerifC16TypeWalk() {
 	var decls, aux []string
 	var wants []vWant
 	used := map[int]bool{}
+	imports := map[string]bool{}
 	for i := 0; i < n; i++ {
 		k := vChoice("field", len(vFieldKinds))
 		vAssume(!used[k]) // each kind declares its own field and auxiliary type names
 		used[k] = true
 		fk := vFieldKinds[k]
+		if fk.imp != "" {
+			imports[fk.imp] = true
+		}
 		decls = append(decls, "\t"+fk.decl)
 		if fk.aux != "" {
 			aux = append(aux, fk.aux)
 		}
 		wants = append(wants, fk.wants...)
 	}
-	src := "package a\n\n" + strings.Join(aux, "\n") + "\n// Thing is the model under test\n//\n// swagger:model\ntype Thing struct {\n" + strings.Join(decls, "\n") + "\n}\n"
-	sw, err := vScan([]vPkgSrc{{"example.com/a", src}}, []string{"example.com/a"}, nil, true)
+	srcs := []vPkgSrc{}
+	head := "package a\n\n"
+	if imports["time"] {
+		srcs = append(srcs, vPkgSrc{"time", vMiniTime})
+		head += "import \"time\"\n\n"
+	}
+	src := head + strings.Join(aux, "\n") + "\n// Thing is the model under test\n//\n// swagger:model\ntype Thing struct {\n" + strings.Join(decls, "\n") + "\n}\n"
+	srcs = append(srcs, vPkgSrc{"example.com/a", src})
+	sw, err := vScan(srcs, []string{"example.com/a"}, nil, true)
 	vCover("scanned")
 	vAssert(err == nil, "the scanner fails on a plain struct")
 	if err != nil {
